@@ -442,6 +442,14 @@ func (e *Eval) instr(fr *Frame, in ssa.Instruction, st *State, cur string) (stri
 		case *types.Map:
 			dom, val := e.mapComps(u)
 			k := e.havocVal(fr.prefix+x.Name()+".k", u.Key(), cur)
+			if _, isPtr := u.Key().Underlying().(*types.Pointer); isPtr && k.T != "" {
+				// an object found by iterating a map of references (the path
+				// tree's reverse index) is not known to be alive
+				if e.iterRefs == nil {
+					e.iterRefs = map[string]bool{}
+				}
+				e.iterRefs[k.T] = true
+			}
 			vv := c.Define(fr.prefix+x.Name()+".v", c.Sort(u.Elem()), sel(sel(c.Get(st, val), it.T), k.T))
 			e.noteVal(u.Elem(), vv)
 			c.Assert(implies(okv, sel(sel(c.Get(st, dom), it.T), k.T)))
